@@ -88,6 +88,48 @@ def Store.update (st : Store) (i : Nat) (g : Grid) : Store := st.set i g
 /-- a non-mutating operation: the result lands in a fresh slot -/
 def Store.push (st : Store) (g : Grid) : Store := st ++ [g]
 
+/-! ## `to_dict` / `from_dict` -/
+
+/-- the dictionary written by `Grid.to_dict` (the coordinate part flattened into one record) -/
+structure Dict where
+  coordinateSystem : String
+  type : String
+  delta : List Rat := []
+  dims : List Nat := []
+  zero : List Rat := []
+  arrays : List (List Rat) := []
+  weights : Weights
+
+def sysName : System → String
+  | .cartesian => "cartesian"
+  | .polar => "polar"
+
+def zip3? (d : List Rat) (n : List Nat) (z : List Rat) : Option (List RegAxis) :=
+  if d.length = n.length ∧ n.length = z.length then
+    some (List.zipWith (fun d nz => { delta := d, dim := nz.1, zero := nz.2 }) d (List.zip n z))
+  else none
+
+def Grid.toDict (g : Grid) : Dict :=
+  match g.coords with
+  | .regular a => { coordinateSystem := sysName g.system, type := "regular", delta := a.map (·.delta),
+                    dims := a.map (·.dim), zero := a.map (·.zero), weights := g.weights }
+  | .separated a => { coordinateSystem := sysName g.system, type := "separated", arrays := a, weights := g.weights }
+  | .unstructured c => { coordinateSystem := sysName g.system, type := "unstructured", arrays := c, weights := g.weights }
+
+/-- `Grid.from_dict`: class looked up by the coordinate-system name, coordinates by their type name
+(`none` = the KeyError / ValueError of an unknown name or malformed arrays) -/
+def Grid.fromDict (d : Dict) : Option Grid :=
+  let sys : Option System :=
+    if d.coordinateSystem = "cartesian" then some .cartesian
+    else if d.coordinateSystem = "polar" then some .polar else none
+  let coords : Option Coords :=
+    if d.type = "regular" then (zip3? d.delta d.dims d.zero).map .regular
+    else if d.type = "separated" then some (.separated d.arrays)
+    else if d.type = "unstructured" then some (.unstructured d.arrays) else none
+  match sys, coords with
+  | some s, some c => some { system := s, coords := c, weights := d.weights }
+  | _, _ => none
+
 /-! ## Canonical printing / parsing -/
 
 def showSys : System → String
@@ -127,11 +169,6 @@ def showTok : Tok → String
   | .name s => "n" ++ showSys s
   | .f64 x => "f" ++ showRat x
   | .i64 n => "i" ++ toString n
-
-def zip3? (d : List Rat) (n : List Nat) (z : List Rat) : Option (List RegAxis) :=
-  if d.length = n.length ∧ n.length = z.length then
-    some (List.zipWith (fun d nz => { delta := d, dim := nz.1, zero := nz.2 }) d (List.zip n z))
-  else none
 
 def parseCoords? : List String → Option Coords
   | ["reg", d, n, z] => do
